@@ -216,10 +216,16 @@ pub fn run_property(mut prop: Property, tier: Tier, seed: u64) -> i32 {
             match (r1, r2) {
                 (Some((_, a)), Some((_, b))) => {
                     if a.outcome.obs != b.outcome.obs || a.outcome.obs != v.obs {
-                        explore::machinery_exit(&format!(
-                            "uncontrolled nondeterminism: replaying {}::{} case {} vector {:?} gave different observations",
+                        // The execution that violated the property does not reproduce when it is run
+                        // again on its own. The harness owns every choice of an execution, so what
+                        // differs is state that survived from OTHER executions of this process — a
+                        // process-wide cache or registry inside the code under test. On a tree where
+                        // the property holds no execution violates it in the first place, so the
+                        // violation stands; it is reported with this caveat instead of being retracted.
+                        eprintln!(
+                            "NOTE: the violating execution {}::{} case {} vector {:?} is not reproducible in isolation (replays observe something else): its outcome depends on state left behind by other executions in the same process",
                             prop.id, s.name, v.case, v.vector
-                        ));
+                        );
                     }
                 }
                 _ => explore::machinery_exit("replay of a violation failed to run"),
